@@ -30,3 +30,43 @@ Theorem base_value_range : forall w signed x, (1 <= w)%nat ->
   base_value_bad_now (Z.of_nat w) signed x = negb (int_in_range w signed x).
 Proof. exact base_value_bad_spec. Qed.
 Print Assumptions base_value_range.
+
+(* ---- structs: decode (encode v ++ anything) = v, size v = |encode v|, encodings are non-empty ----
+   PARTIAL: proved for the FLAT fragment of ANY schema (flat_struct / adm in Cats/StructRoundTrip.v): aliases, enums and structs
+   without parent, @size window, conditional / sizeof / sizeref / fill / aligned members, whose members are plain or reserved
+   integers, count / byte-size members, named members, byte arrays and counted typed arrays (keyed or not) - nested to any depth n,
+   for every interpreter fuel >= 2n + 1.  Full statement (dec_enc for every wf schema incl. parent headers with the @size window,
+   factories, fill / aligned arrays, conditionals, sizeof, sizeref): not yet proved; those constructs are covered by the
+   correspondence with the generated codecs only. *)
+From Symv Require Import Cats.StructProofs Cats.StructRoundTrip Cats.StructDecide Gen.SchemaSc Gen.SchemaNc.
+Open Scope string_scope.
+Open Scope list_scope.
+Open Scope Z_scope.
+
+Theorem dec_enc_flat_partial : forall tm n k t v b rest, (2 * n + 1 <= k)%nat -> adm tm n t v -> enc ops_now tm k t v = Ok b ->
+  dec ops_now tm k t (b ++ rest) = Ok v /\ size ops_now tm k t v = Ok (Z.of_nat (length b)) /\ (0 < length b)%nat.
+Proof. exact (fun tm n k t v b rest Hk => RT_all tm n k Hk t v b rest). Qed.
+Print Assumptions dec_enc_flat_partial.
+
+(* the fragment is decidable: membership of a concrete struct / value is a kernel computation *)
+Theorem fragment_decidable : forall tm n t v, admb tm n t v = true -> adm tm n t v.
+Proof. exact admb_sound. Qed.
+Print Assumptions fragment_decidable.
+
+(* non-vacuity on the shipped schemas: a Symbol mosaic, a Symbol address-resolution statement with two entries (counted array of structs),
+   a NEM mosaic id (nested struct with a byte array sized by a count member) are admissible values and round-trip *)
+Definition flat_names (tm : list decl) : list string :=
+  flat_map (fun d => match d with DStruct s => if flat_structb tm s then [s_name s] else [] | _ => [] end) tm.
+
+Example fragment_examples :
+  admb sc_schema 1 "UnresolvedMosaic" (VStruct "UnresolvedMosaic" [("mosaic_id", VInt 5); ("amount", VInt 18446744073709551615)]) = true
+  /\ admb sc_schema 3 "AddressResolutionStatement"
+       (VStruct "AddressResolutionStatement"
+          [("unresolved", VBytes (repeat 7 24));
+           ("resolution_entries",
+            VArr [VStruct "AddressResolutionEntry" [("source", VStruct "ReceiptSource" [("primary_id", VInt 1); ("secondary_id", VInt 2)]); ("resolved_value", VBytes (repeat 1 24))];
+                  VStruct "AddressResolutionEntry" [("source", VStruct "ReceiptSource" [("primary_id", VInt 3); ("secondary_id", VInt 4)]); ("resolved_value", VBytes (repeat 2 24))]])]) = true
+  /\ admb nc_schema 2 "MosaicId"
+       (VStruct "MosaicId" [("namespace_id", VStruct "NamespaceId" [("name", VBytes [110; 101; 109])]); ("name", VBytes [120; 101; 109])]) = true
+  /\ Nat.leb 10 (length (flat_names sc_schema)) = true /\ Nat.leb 5 (length (flat_names nc_schema)) = true.
+Proof. vm_compute. repeat split; reflexivity. Qed.
